@@ -189,6 +189,11 @@ class PyAbs:
         if av.lin is None and all(b is None for b in av.bits):
             a = st.atom(name, av.lo, av.hi)
             av = st.atom_av(a)
+        elif av.lin is not None and av.lin[1] != 0 and not (av.lo is not None and av.lo == av.hi):
+            # y = x - 3 : rename to a fresh atom related to x, so that bit fields of y have a provenance
+            a = st.atom(name, av.lo, av.hi)
+            st.rel[a] = st.root(av.lin)
+            av = st.atom_av(a)
         st.env[name] = av
 
     def stmt(self, s, st, depth, loopd):
